@@ -109,6 +109,9 @@ impl Check for SimCheck {
     }
     fn parts(&self, tier: Tier) -> Vec<Part> {
         let mut v = vec![Part { name: "hist", kind: PartKind::Random { cases: tier.pick(self.quick, self.thorough), main: 120, ops: 7, oplen: 40, sched: 60 } }];
+        if ["C01", "C04", "C05", "C06"].contains(&self.id) {
+            v.push(Part { name: "schedules", kind: PartKind::Random { cases: tier.pick(400, 6000), main: 80, ops: 2, oplen: 40, sched: 30 } });
+        }
         if self.id == "C09" {
             v.push(Part { name: "showincludes", kind: PartKind::Enum { units: 9 } });
         }
@@ -121,6 +124,14 @@ impl Check for SimCheck {
         v
     }
     fn run_random(&mut self, _part: &str, case: &Case, env: &mut Env) -> CaseOut {
+        if _part == "schedules" {
+            // small graphs, every completion order x failing subsets of the last round
+            let prof = Profile { gen: GenOpts { max_steps: 6, max_sources: 2, regen_pct: 0, ..self.prof.gen.clone() }, kill_pct: 0, interrupt_pct: 0, restat_pct: 0, repeat_pct: 0, min_rounds: 1, ..self.prof.clone() };
+            let (runs, viols, desc, fps, cut, stats) = explore_schedules(case, &prof, &env.dir, self.id, &env.known, env.tier.pick(300, 4000));
+            let mut classes: Vec<String> = vec![if cut { "schedule-enumeration-cut".to_string() } else { "schedule-enumeration-complete".to_string() }];
+            classes.extend(stats.classes.iter().filter(|c| !c.starts_with("edit:")).cloned());
+            return CaseOut { viols, nontrivial: !fps.is_empty(), fp: fps.first().copied().unwrap_or(0), extra_fps: fps, classes, desc, evals: runs, ..Default::default() };
+        }
         let out = if _part == "cycles" { run_cycle_case(case, &env.dir) } else { run_history(case, &self.prof, &env.dir, self.id, &env.known) };
         let nontrivial = (self.nontrivial)(&out.stats);
         let mut classes: Vec<String> = out.stats.classes.iter().cloned().collect();
